@@ -1272,6 +1272,29 @@ def _solve(A, B):
     return SymArray(X, dt)
 
 
+LSTSQ_LABEL = 'np.linalg.lstsq(A, B): some least-squares solution (havoc, unconstrained in the contracts)'
+
+
+@implements(np.linalg.lstsq)
+def _lstsq(a, b, rcond=None):
+    c = S.ctx()
+    c.assumptions_used.add(LSTSQ_LABEL)
+    a, b = _sa(a), _sa(b)
+    dt = result_dtype([a, b], force_float=True)
+    shape = (a.shape[-1],) + b.shape[1:]
+    X = np.empty(shape, dtype=object)
+    for idx in np.ndindex(*shape):
+        vr = c.new_var('lstsq_re')
+        c.evalfn[vr.args[0]] = (lambda ev: 0.0)
+        if dt.kind == 'c':
+            vi = c.new_var('lstsq_im')
+            c.evalfn[vi.args[0]] = (lambda ev: 0.0)
+            X[idx] = C(R(vr), R(vi))
+        else:
+            X[idx] = R(vr)
+    return SymArray(X, dt), None, None, None
+
+
 @implements(np.linalg.inv)
 def _inv(A):
     A = _sa(A)
@@ -1316,7 +1339,15 @@ def _eigh(A, UPLO='L'):
     cplx = A.dt.kind == 'c'
     W = np.empty(lead + (n,), dtype=object)
     V = np.empty(lead + (n, n), dtype=object)
+    memo = c.names.setdefault('eigh-memo', {})
     for idx in np.ndindex(*lead):
+        # deterministic external: the same matrix (cell by cell) gets the same decomposition (relational contracts)
+        key = (UPLO, cplx) + tuple((C.lift(num(x)).re.term().id, C.lift(num(x)).im.term().id)
+                                   for x in A_[idx].reshape(-1))
+        hit = memo.get(key)
+        if hit is not None:
+            W[idx], V[idx] = hit[0], hit[1]
+            continue
         wv = [c.new_var('eigval') for _ in range(n)]
         vr = [[c.new_var('eigvec_re') for _ in range(n)] for _ in range(n)]
         vi = [[c.new_var('eigvec_im') for _ in range(n)] for _ in range(n)] if cplx else None
@@ -1378,6 +1409,7 @@ def _eigh(A, UPLO='L'):
             W[idx + (i,)] = R(wv[i])
             for j in range(n):
                 V[idx + (i, j)] = Vc(i, j) if cplx else R(vr[i][j])
+        memo[key] = (W[idx].copy(), V[idx].copy())
     return SymArray(W, _real_dt(A.dt) if cplx else A.dt), SymArray(V, A.dt)
 
 
